@@ -42,10 +42,14 @@ pub struct KeyHashDate<K> { k: std::marker::PhantomData<K> }
 impl<K> KeyHashDate<K> {
     pub uninterp spec fn sp_key(&self) -> Arc<K>;
     pub uninterp spec fn sp_hash(&self) -> u64;
+//@@ SIG file=src/common/concurrent.rs owner=KeyHashDate name=key
     #[verifier::external_body]
     pub fn key(&self) -> (r: &Arc<K>) ensures *r == self.sp_key() { unimplemented!() }
+//@@ END
+//@@ SIG file=src/common/concurrent.rs owner=KeyHashDate name=hash
     #[verifier::external_body]
     pub fn hash(&self) -> (r: u64) ensures r == self.sp_hash() { unimplemented!() }
+//@@ END
 }
 #[verifier::reject_recursive_types(T)]
 pub struct DeqNode<T> { pub element: T }
@@ -54,16 +58,20 @@ pub struct DeqNode<T> { pub element: T }
 pub struct Deque<T> { k: std::marker::PhantomData<T> }
 impl<T> Deque<T> {
     pub uninterp spec fn view(&self) -> Seq<N>;
+//@@ SIG file=src/common/deque.rs owner=Deque name=peek_front_ptr
     #[verifier::external_body]
     pub fn peek_front_ptr(&self) -> (r: Option<NonNull<DeqNode<T>>>)
         ensures match r { Some(p) => self@.len() > 0 && nid(p) == self@[0].id, None => self@.len() == 0 }
     { unimplemented!() }
+//@@ END
 }
 impl<T> DeqNode<T> {
+//@@ SIG file=src/common/deque.rs owner=DeqNode name=next_node_ptr
     #[verifier::external_body]
     pub fn next_node_ptr(this: NonNull<Self>) -> (r: Option<NonNull<DeqNode<T>>>)
         ensures match r { Some(p) => heap_next(nid(this)) == Some(nid(p)), None => heap_next(nid(this)).is_none() }
     { unimplemented!() }
+//@@ END
 }
 pub open spec fn frozen<K>(s: Seq<N>) -> bool {
     forall|p: NonNull<DeqNode<KeyHashDate<K>>>, i: int| 0 <= i < s.len() && nid(p) == (#[trigger] s[i]).id ==> {
@@ -106,8 +114,10 @@ pub struct FrequencySketch { x: u64 }
 impl FrequencySketch {
     pub uninterp spec fn freq(&self, hash: u64) -> u8;
     /// contract proved in the `sketch` unit
+//@@ SIG file=src/common/frequency_sketch.rs owner=FrequencySketch name=frequency
     #[verifier::external_body]
     pub fn frequency(&self, hash: u64) -> (r: u8) ensures r == self.freq(hash), r <= 15 { unimplemented!() }
+//@@ END
 }
 
 pub trait Array { type Item; }
